@@ -68,7 +68,7 @@ type modelWriter struct {
 	cutTrace []int
 }
 
-func (w *modelWriter) Close() error           { return nil }
+func (w *modelWriter) Close() error { return nil }
 func (w *modelWriter) Clone() rac.CodecWriter {
 	return &modelWriter{kind: w.kind, resPlan: w.resPlan, short: w.short}
 }
@@ -79,7 +79,7 @@ func (w *modelWriter) codec() rac.Codec {
 	}
 	return modelCodec
 }
-func (w *modelWriter) CanCut() bool           { return true }
+func (w *modelWriter) CanCut() bool { return true }
 
 func appendToken(dst []byte, b byte) []byte {
 	if b >= 0xFD {
@@ -229,8 +229,10 @@ type modelReader struct {
 	resources [][]byte // the Writer's ResourcesData, to check that tags lead to the right bytes
 }
 
-func (r *modelReader) Close() error            { return nil }
-func (r *modelReader) Accepts(c rac.Codec) bool { return c == modelCodec || (r.short && c == modelCodecShort) }
+func (r *modelReader) Close() error { return nil }
+func (r *modelReader) Accepts(c rac.Codec) bool {
+	return c == modelCodec || (r.short && c == modelCodecShort)
+}
 func (r *modelReader) Clone() rac.CodecReader {
 	return &modelReader{resources: r.resources, short: r.short}
 }
